@@ -228,6 +228,17 @@ func c13SdpVariants(r *rand.Rand) [][]byte {
 	add(strings.Replace(base, "a=control:streamid=0", "a=control:", 1))
 	add(strings.Replace(base, "a=fmtp:96", "a=fmtp:", 1))
 	add(strings.Replace(base, "a=fmtp:97 ", "a=fmtp:97", 1))
+	// static payload types (RFC 3551) announced without an rtpmap line, audio and video, alone and next to
+	// the other track; encoding names lal knows about but has no depacketiser for
+	for _, pt := range []int{0, 3, 4, 5, 8, 9, 10, 11, 12, 13, 14, 15, 18, 25, 26, 28, 31, 32, 33, 34, 35, 71, 72, 95, 96, 127} {
+		add(fmt.Sprintf("v=0\r\no=- 0 0 IN IP4 127.0.0.1\r\ns=x\r\nc=IN IP4 127.0.0.1\r\nt=0 0\r\nm=audio 0 RTP/AVP %d\r\na=control:streamid=0\r\n", pt))
+		add(fmt.Sprintf("v=0\r\no=- 0 0 IN IP4 127.0.0.1\r\ns=x\r\nc=IN IP4 127.0.0.1\r\nt=0 0\r\nm=video 0 RTP/AVP %d\r\na=control:streamid=0\r\n", pt))
+		add(strings.Replace(strings.Replace(base, "m=audio 0 RTP/AVP 97", fmt.Sprintf("m=audio 0 RTP/AVP %d", pt), 1), "a=rtpmap:97 MPEG4-GENERIC/44100/2\r\n", "", 1))
+	}
+	for _, enc := range []string{"MPA/90000", "MP2T/90000", "L16/44100/2", "G722/8000", "G729/8000", "GSM/8000", "AMR/8000", "AMR-WB/16000", "VP8/90000", "VP9/90000", "AV1/90000", "MP4V-ES/90000", "JPEG/90000", "H263-1998/90000", "telephone-event/8000", "speex/16000", "vorbis/44100/2", "ac3/48000", "mpeg4-generic/48000/2", "h264/90000"} {
+		add(strings.Replace(base, "MPEG4-GENERIC/44100/2", enc, 1))
+		add(strings.Replace(base, "H264/90000", enc, 1))
+	}
 	add("")
 	add("v=0\r\n")
 	add("\r\n\r\n")
@@ -887,7 +898,7 @@ func init() {
 			return 64
 		},
 		CaseTimeout: func(string) time.Duration { return 10 * time.Minute },
-		Rule: "sub-inputs per surface against the whole in-process server: RTSP command connection (ANNOUNCE with ≈250 mutated SDP bodies — clock rates 0/1/999/2^31, removed/duplicated lines, truncations, broken sprop/config/fmtp —, interleaved `$` frames with hostile RTP/RTCP bodies on every channel before/after SETUP/RECORD and from players, method sequences out of order with 14 Transport header variants, three Transport headers cut at every offset, Authorization headers cut at every offset (half of the child processes run the server with RTSP Digest authentication on), request lines × URIs × header oddities, raw bytes), UDP datagrams (RTP with padding/CSRC/extension/STAP/FU/AU-header extremes, truncated at every offset, RTCP SR truncated at every offset) to the RTP/RTCP ports of live UDP pub and sub sessions, GB28181 PS bodies (valid PS truncated/bit-mutated, every start code with short tails) over UDP and TCP framing, HTTP requests to the FLV/TS/HLS listener (path × Upgrade × version oddities) and every HTTP-API endpoint with malformed/typed-wrong JSON, WebSocket-RTSP / WebSocket-FLV frames (64-bit lengths, masks, opcodes, truncated handshakes), and scripted upstream replies while lal is RTMP pull / RTSP pull / HTTP-FLV pull client. " +
+		Rule: "sub-inputs per surface against the whole in-process server: RTSP command connection (ANNOUNCE with ≈250 mutated SDP bodies — clock rates 0/1/999/2^31, removed/duplicated lines, truncations, static payload types without rtpmap, encoding names without a depacketiser, broken sprop/config/fmtp —, interleaved `$` frames with hostile RTP/RTCP bodies on every channel before/after SETUP/RECORD and from players, method sequences out of order with 14 Transport header variants, three Transport headers cut at every offset, Authorization headers cut at every offset (half of the child processes run the server with RTSP Digest authentication on), request lines × URIs × header oddities, raw bytes), UDP datagrams (RTP with padding/CSRC/extension/STAP/FU/AU-header extremes, truncated at every offset, RTCP SR truncated at every offset) to the RTP/RTCP ports of live UDP pub and sub sessions, GB28181 PS bodies (valid PS truncated/bit-mutated, every start code with short tails) over UDP and TCP framing, HTTP requests to the FLV/TS/HLS listener (path × Upgrade × version oddities) and every HTTP-API endpoint with malformed/typed-wrong JSON, WebSocket-RTSP / WebSocket-FLV frames (64-bit lengths, masks, opcodes, truncated handshakes), and scripted upstream replies while lal is RTMP pull / RTSP pull / HTTP-FLV pull client. " +
 			"an RTSP player kept attached without PLAY while UDP / interleaved publishers of its stream leave with RTP still arriving, and while the next publisher pipelines RTP behind its ANNOUNCE; " +
 			"monitors: process liveness (crash signature + resumption after the crashing input) and a canary (RTMP publish+play and an RTSP DESCRIBE of a background stream) after every group. cell = surface/input class.",
 		Assumptions: []string{"an error reply, a closed session or a kept-open session are all fine; only process death / failing canary is judged"},
